@@ -107,7 +107,8 @@ inductive Doc : Builtin → List Val → List Val → Prop
   | missingYes (m : Str) : Doc .missing [.missing m] [.int 1]
   | missingNo {v : Val} : (∀ m, v ≠ .missing m) → Doc .missing [v] [.int 0]
   | chrToInt (c : Char) : Doc .chrToInt [.str [c]] [.int c.toNat]
-  | intToChr {n : Int} : 0 ≤ n → n < 0x110000 → Doc .intToChr [.int n] [.str [Char.ofNat n.toNat]]
+  | intToChr {n : Int} : 0 ≤ n → n < 0x110000 → ¬ (0xD800 ≤ n ∧ n ≤ 0xDFFF) →
+      Doc .intToChr [.int n] [.str [Char.ofNat n.toNat]]       -- (surrogate code points are not modelled)
   | intToStr (n : Int) : Doc .intToStr [.int n] [.str (toString n).toList]
   | substring {v : Val} {x : Str} (start len : Int) : valToStr v = some x →
       Doc .substring [.int len, .int start, v] [.str (Spec.substring x start len)]
@@ -143,13 +144,14 @@ def Finished (r : Except IErr St) : Prop := r ≠ .error .outOfFuel
 /-! ### `ITERATE` / `REVERSE` -/
 
 /-- "execute the function once for each entry of the list, in order, with that entry current":
-the left fold of `call` over the keys, stopping at the first error. -/
+the left fold of `call` over the keys, stopping at the first error; between the calls and after
+the last one no entry is current. -/
 def foldEntries (call : St → Except IErr St) : List Str → St → Except IErr St
   | [], s => .ok s
   | k :: ks, s =>
     match call { s with cur := some k } with
     | .error e => .error e
-    | .ok s' => foldEntries call ks s'
+    | .ok s' => foldEntries call ks { s' with cur := none }
 
 /-! ### `SORT` -/
 
@@ -170,9 +172,8 @@ def StableWrt {α : Type} (key : α → Str) (l l' : List α) : Prop :=
 
 /-! ### output (`write$`, `newline$`) -/
 
-inductive OutEv where
-  | write (x : Str)
-  | newline
+/- `OutEv` (an output event: `write x` / `newline`) is defined next to the state, whose ghost
+component `St.trace` records the events of a run: `Model/Interp.lean`. -/
 
 /-- the effect of an output event on (emitted lines, pending buffer) -/
 def emit : List Str × List Str → OutEv → List Str × List Str
@@ -201,7 +202,10 @@ def VarsPersist (v v' : CIDict VarObj) : Prop :=
 `EXECUTE`, one round of `ITERATE`): the current entry, the database, the citation list, the
 macros and the preamble are untouched; the entry variables of every entry other than the
 current one are untouched; variables persist; output happens only through write/newline
-events; reports and `top$`/`stack$` print-outs are only appended. -/
+events — the events `evs` the execution appends to the trace of `write$` / `newline$` calls
+(`St.trace`: `C03_builtin_write`, `C03_builtin_newline`, `C03_trace_only_write_newline`) are what
+takes (lines, buffer) of `s` to those of `s'`; reports and `top$`/`stack$` print-outs are only
+appended. -/
 structure Frame (s s' : St) : Prop where
   cur : s'.cur = s.cur
   db : s'.db = s.db
@@ -210,7 +214,7 @@ structure Frame (s s' : St) : Prop where
   preamble : s'.preamble = s.preamble
   entry : ∀ k, s.cur ≠ some k → dget s'.entryVars k = dget s.entryVars k
   vars : VarsPersist s.vars s'.vars
-  out : ∃ evs : List OutEv, (s'.lines, s'.buffer) = evs.foldl emit (s.lines, s.buffer)
+  out : ∃ evs : List OutEv, s'.trace = s.trace ++ evs ∧ (s'.lines, s'.buffer) = evs.foldl emit (s.lines, s.buffer)
   reports : s.reports <+: s'.reports
   printed : s.printed <+: s'.printed
 
@@ -218,7 +222,7 @@ structure Frame (s s' : St) : Prop where
 appended; and, for every command but `READ`, the database is kept and the citation list is kept
 up to order. -/
 structure CmdFrame (c : Command) (s s' : St) : Prop where
-  out : ∃ evs : List OutEv, (s'.lines, s'.buffer) = evs.foldl emit (s.lines, s.buffer)
+  out : ∃ evs : List OutEv, s'.trace = s.trace ++ evs ∧ (s'.lines, s'.buffer) = evs.foldl emit (s.lines, s.buffer)
   reports : s.reports <+: s'.reports
   printed : s.printed <+: s'.printed
   db : upper c.name ≠ "READ".toList → s'.db = s.db
@@ -247,5 +251,24 @@ def Fresh (ns : List Str) (s : St) : Prop :=
 def entryDecls (fields ints strings : List Str) : List (Str × VarObj) :=
   fields.map (fun n => (n, VarObj.field n)) ++ [("crossref".toList, VarObj.crossref)] ++
     ints.map (fun n => (n, VarObj.eint n)) ++ strings.map (fun n => (n, VarObj.estr n))
+
+/-! ### `READ` -/
+
+/-- the state of the `.bib` reader when `READ` starts it: the `MACRO` table of the style as the
+initial macros (it replaces the predefined month names), no person fields (`person_fields=[]`:
+`author` / `editor` stay text), and only the cited entries wanted (`wanted_entries=citations`) -/
+def readerStart (s : St) : Bib.St :=
+  { rest := [], macros := CIDict.ofPairs s.macros,
+    db := { wanted := some (CISet.ofList s.citations), citations := CISet.ofList s.citations }, roles := [] }
+
+/-- what the reader delivers: the `.bib` texts parsed one after the other by one reader (C01: one
+database, one macro table, the problems reported on the way), or — with a `bib_format` reader —
+the entries that reader delivers, in its order, passed through `add_entry` (C05) -/
+def readerResult (inp : Input) (s : St) : Bib.St :=
+  match inp.alt with
+  | none => (readAll inp.bibTexts (readerStart s)).1
+  | some (es, pre) =>
+    es.foldl (fun st ke => match Bib.addEntry st ke.1 ke.2 with | .ok _ st => st | .fail _ st => st)
+      { readerStart s with db := { (readerStart s).db with preamble := pre } }
 
 end Pybtex.BstSem
